@@ -11,7 +11,7 @@ Do NOT read or touch /repo or /verif (they are out of bounds; your work must be 
 
 Every shell command must start with:
   export GOFLAGS=-mod=mod GOPROXY=off GOSUMDB=off GOTOOLCHAIN=local
-(the sandbox has no network). Run the whole existing suite with `cd {wt} && go test -vet=off -count=1 ./...` (takes ~10 s). The test `TestServeBackground` in props/modules/http/builtin is known to be flaky (connection refused) - ignore a failure of that one test only. If you change parser/parser.go.y you must regenerate parser/y.go with `cd {wt} && go run golang.org/x/tools/cmd/goyacc -o ./parser/y.go -v ./parser/y.output ./parser/parser.go.y` (works offline). A quick way to run a Pangaea snippet: `cd {wt} && go run . -e '<source>'` (see main.go for flags), or write a small Go test.
+(the sandbox has no network). Run the whole existing suite with `cd {wt} && go test -vet=off -count=1 ./...` (takes ~10 s). The test `TestServeBackground` in props/modules/http/builtin is known to be flaky (connection refused) - ignore a failure of that one test only. Other tests of that package bind fixed TCP ports and can fail with 'address already in use' / 'connection refused' when another job runs the suite at the same time: if that happens just re-run `go test -vet=off -count=1 ./props/modules/http/builtin/` a little later. If you change parser/parser.go.y you must regenerate parser/y.go with `cd {wt} && go run golang.org/x/tools/cmd/goyacc -o ./parser/y.go -v ./parser/y.output ./parser/parser.go.y` (works offline). A quick way to run a Pangaea snippet: `cd {wt} && go run . -e '<source>'` (see main.go for flags), or write a small Go test.
 
 THE PROPERTY (id {pid}): {p['title']}
 {p['statement']}
